@@ -1,6 +1,7 @@
 package client
 
 import (
+	sdk "github.com/cosmos/cosmos-sdk/types"
 	paramtypes "github.com/cosmos/cosmos-sdk/x/params/types"
 
 	"github.com/teleport-network/teleport/x/xibc/core/client/keeper"
@@ -22,7 +23,7 @@ func VerifC06RegistryAcrossGenesis() {
 	n := rt.IntRange("relayers", 2, 3)
 	var addrs []string
 	for i := 0; i < n; i++ {
-		a := rt.StrN("relayer.address", 8) // the shortest strings bech32 admits
+		a := sdk.AccAddress(rt.BytesN("relayer.address", 20)).String() // a real bech32 account address (also when the witness is replayed natively)
 		for _, o := range addrs {
 			rt.Assume(o != a)
 		}
